@@ -20,6 +20,8 @@
 (*             ackT  logical time just after the publisher got the answer   *)
 (*                   (Inf = no answer (yet))                                *)
 (*             res   the answer: "ok" | "incorrect_offset" | "bad_request"  *)
+(*                   (traces also "noanswer": none, although a later       *)
+(*                   publish of the same publisher was acknowledged)       *)
 (*                   | "noack" (accepted, ack policy NONE) | "pending"      *)
 (*                   (traces also: "timeout", "other")                      *)
 (*             off   offset carried by a success ack (-1 otherwise)         *)
@@ -252,8 +254,18 @@ C16_OneWinner ==
 C16_NoneNotSilent ==
   Quiescent => \A id \in Ids : (Cond(id) /\ R(id) = "noack") => Stored(id)
 
+\* "otherwise the publisher gets an incorrect-offset error": once nothing is in
+\* flight, a publish that asked for an ack (LEADER or ALL) and is not in the
+\* log has been answered with an error.  On recorded rounds "noanswer" = no
+\* answer although a later publish of the same publisher (the fence) was
+\* acknowledged; "timeout" / "other" say nothing about the server and are not
+\* judged.
+C16_Answered ==
+  Quiescent => \A id \in Ids :
+     (msgs[id].pol # "none" /\ ~Stored(id) /\ R(id) \notin {"timeout", "other"}) => R(id) \in Errors
+
 C16_All == /\ C16_Dense /\ C16_Once /\ C16_StoredAtExpected /\ C16_AckOffset /\ C16_RejectNotStored
-           /\ C16_RejectJustified /\ C16_WaivedAccepted /\ C16_OneWinner /\ C16_NoneNotSilent
+           /\ C16_RejectJustified /\ C16_WaivedAccepted /\ C16_OneWinner /\ C16_NoneNotSilent /\ C16_Answered
 
 -----------------------------------------------------------------------------
 (* Implementation level (conformance; a mismatch is drift, never an alarm)  *)
